@@ -183,6 +183,7 @@ def run(tier):
                         chk.sample({'shape': sname, 'variant': VARIANTS[vi], 'graph': short(canon(g), 300), 'verdict': 'held'})
     chk.extra['exhaustive'] = True
     chk.extra['enumerated_arrangements'] = n_enum
+    falsy_states(chk)
 
     # mixed variants inside one graph + random graphs
     from checks.c13 import gen_graph, gen_specs, build_hierarchy
@@ -237,3 +238,81 @@ def replay(spec):
     import json
     print(json.dumps(spec, indent=1)[:4000])
     return 0
+
+
+def falsy_states(chk):
+    """Opt-in objects whose remote state is falsy but not None ({} / 0 / '' / () / False): standard
+    unpickling still calls __setstate__ with it (BUILD is emitted for every state that is not None)."""
+    import pickle
+    import vlib.genmod as genmod
+    from pyworkers.remote_pickle import SupportRemoteGetState
+
+    def mk(name, value, marker, with_setstate):
+        ns = {'__module__': 'vlib.genmod', '__qualname__': name}
+
+        def __getstate__(self, remote=False):
+            LOG.append((id(self), name, 'getstate', remote))
+            return value if remote else {'local': True}
+        ns['__getstate__'] = __getstate__
+        if with_setstate:
+            def __setstate__(self, state):
+                # remote_reduce hands dict states over as an OrderedDict: equal content is what matters
+                LOG.append((id(self), name, 'setstate', repr(dict(state)) if isinstance(state, dict) else repr(state)))
+                self.restored_from = state
+            ns['__setstate__'] = __setstate__
+        cls = type(name, (SupportRemoteGetState,) if marker else (object,), ns)
+        setattr(genmod, name, cls)
+        return cls
+
+    n = 0
+    for vi, value in enumerate([{}, 0, '', (), False, 0.0]):
+        for marker in (True, False):
+            for with_setstate in (True, False):
+                if not with_setstate and not isinstance(value, dict):
+                    continue   # without __setstate__ only dict states can be restored by standard unpickling
+                n += 1
+                cls = mk('F%d_%d_%d' % (vi, marker, with_setstate), value, marker, with_setstate)
+                holder = make_holder()
+                for pos in ('top', 'attr', 'list', 'shared'):
+                    o = cls()
+                    g = o if pos == 'top' else holder(a=o) if pos == 'attr' else [o, 1] if pos == 'list' else [o, (o,)]
+                    for proto in (2, 4):
+                        LOG.clear()
+                        sym = None
+                        try:
+                            out = rp.loads(rp.dumps(g, protocol=proto))
+                        except BaseException as e:  # noqa
+                            sym = 'loads-or-dumps-raised:' + type(e).__name__
+                            out = None
+                        log = list(LOG)
+                        LOG.clear()
+                        chk.case(('falsy', repr(value), marker, with_setstate, pos, proto))
+                        chk.count('falsy_state_cases')
+                        if sym is None:
+                            r = out if pos == 'top' else out.a if pos == 'attr' else out[0]
+                            gets = [x for x in log if x[2] == 'getstate']
+                            sets = [x for x in log if x[2] == 'setstate']
+                            if len(gets) != 1 or gets[0][3] is not True:
+                                sym = 'getstate-count-or-flag'
+                            elif with_setstate and (len(sets) != 1 or sets[0][3] != repr(value)):
+                                sym = 'setstate-not-called-with-falsy-state'
+                            elif '__setstate__' in vars(r):
+                                sym = 'stray-setstate-attribute'
+                            elif pos == 'shared' and out[1][0] is not out[0]:
+                                sym = 'sharing-lost'
+                        if sym:
+                            chk.violation('%s:falsy-state' % sym, 'opt-in object with remote state %r (%s, %s __setstate__) at position %s, protocol %d: %s; hook log %s' % (
+                                value, 'marker' if marker else 'duck-typed', 'with' if with_setstate else 'without', pos, proto, sym, short(log, 200)),
+                                {'state': repr(value), 'marker': marker, 'with_setstate': with_setstate, 'position': pos, 'protocol': proto, 'log': short(log, 400)})
+
+
+def make_holder():
+    import vlib.genmod as genmod
+    if not hasattr(genmod, 'PlainHolder'):
+        class PlainHolder:
+            def __init__(self, **kw):
+                self.__dict__.update(kw)
+        PlainHolder.__module__ = 'vlib.genmod'
+        PlainHolder.__qualname__ = 'PlainHolder'
+        genmod.PlainHolder = PlainHolder
+    return genmod.PlainHolder
